@@ -341,6 +341,41 @@ def run_write_faults(ctx, name, role, steps, only=None):
             ctx.fail(v.key.replace('C13:', 'C13:write-fault:', 1), v.what, v.case)
 
 
+def _summary(sim):
+    return {'outcome': sim.outcome[0], 'inds': [convs.describe_ind(i) for i in sim.indications()], 'wire': sim.wire(),
+            'final': {k: v for k, v in sim.final().items() if k in ('state', 'closed', 'sock_none', 'artim')}}
+
+
+def run_slow_reader(ctx, name, role, steps, only=None):
+    """The peer pauses reading for 11.5 s during the k-th local write (TCP flow control makes the write wait), for
+    every k where ARTIM is not running.  A slow reader is no fault at all: the conversation must go exactly as
+    without the pause.  Before this, the process carried an association of its own to completion (what one
+    association does to process-wide settings must not reach the next)."""
+    orole, osteps = convs.corpus()['req-echo-release']
+    simnet.run_scenario(orole, full_script(osteps))
+    script = full_script(steps) + [{'k': 'tick', 'dt': ARTIM + 1}]
+    clean = simnet.run_scenario(role, script)
+    want = _summary(clean)
+    writes = len([e for e in clean.log if e[0] == 'send'])
+    for k in range(writes):
+        if only is not None and only != k:
+            continue
+        case = {'kind': 'slow-reader', 'conv': name, 'write': k}
+        sim = simnet.run_scenario(role, script, stall_write=k)
+        if not any(e[0] == 'stalled' for e in sim.log):
+            continue            # ARTIM was running at that write: the pause would race the timer, not generated
+        ctx.case(('slow-reader', name, k), True, labels=['slow-reader', 'conv=' + name], sample=case)
+        got = _summary(sim)
+        for field in ('outcome', 'inds', 'wire', 'final'):
+            if got[field] != want[field]:
+                timed_out = any(e[0] == 'send-timed-out' for e in sim.log)
+                ctx.fail('C13:slow-reader:%s' % field, '%s: the peer paused reading for 11.5 s during write %d of %d%s: %s differs '
+                         'from the run without the pause (ended in Sta%s, closed=%s)'
+                         % (name, k + 1, writes, ' and the write gave up with a time-out (the socket was left in time-out mode)'
+                            if timed_out else '', field, got['final']['state'], got['final']['closed']), case)
+                break
+
+
 def run_kill_stop(ctx, name, role, steps, only=None):
     base = full_script(steps)
     for i in range(len(base) + 1):
@@ -373,6 +408,7 @@ def run_conv(ctx, job):
     role, steps = corpus(job['thorough'])[job['conv']]
     run_disconnects(ctx, job['conv'], role, steps)
     run_write_faults(ctx, job['conv'], role, steps)
+    run_slow_reader(ctx, job['conv'], role, steps)
     run_kill_stop(ctx, job['conv'], role, steps)
 
 
@@ -428,7 +464,7 @@ def run(ctx):
     c = corpus(ctx.thorough)
     ctx.exhaustive = True
     ctx.rule = ('for each of %d conversations (both roles): peer disconnect after EVERY byte prefix of the peer\'s '
-                'stream, with and without the next local step racing the disconnect; the disconnect surfacing as a failure of the k-th local write, for every k; peer silence at each of 13 '
+                'stream, with and without the next local step racing the disconnect; the disconnect surfacing as a failure of the k-th local write, for every k; the peer pausing 11.5 s during the k-th write (after the process carried another association); peer silence at each of 13 '
                 'points where ARTIM is armed (with a silent peer, a chattering peer and a peer that stalls in the middle of a PDU), checked just before and '
                 'just after the deadline; another association served to completion in the same process while a provider waits on ARTIM; a local user that fetches nothing while the peer pipelines 40 / 1100 messages, followed by each way of ending; a stop request (kill) and stop() at every quiescent point of every '
                 'conversation; Association.kill() for both stop() outcomes; non-trivial = cut strictly inside the '
@@ -448,12 +484,14 @@ def replay(case):
     from ..common import Ctx
     sub = Ctx('C13', 'quick', 1)
     k = case['kind']
-    if k in ('disconnect', 'kill', 'stop', 'write-fault'):
+    if k in ('disconnect', 'kill', 'stop', 'write-fault', 'slow-reader'):
         role, steps = corpus(True)[case['conv']]
         if k == 'disconnect':
             run_disconnects(sub, case['conv'], role, steps, (case['cut'], case['user_after']))
         elif k == 'write-fault':
             run_write_faults(sub, case['conv'], role, steps, case['write'])
+        elif k == 'slow-reader':
+            run_slow_reader(sub, case['conv'], role, steps, case['write'])
         else:
             run_kill_stop(sub, case['conv'], role, steps, case['at'])
     elif k == 'silence':
